@@ -163,6 +163,9 @@ type CRLSpec struct {
 	EntryExts []pkix.Extension
 	// FirstEntryExts are extensions carried by the first entry only.
 	FirstEntryExts []pkix.Extension
+	// IssuerUTF8: the CRL spells its issuer name with UTF8String values (the certificate uses PrintableString): the
+	// same name in another, equally valid encoding.
+	IssuerUTF8 bool
 }
 
 // MakeCRL builds a DER CRL.
@@ -194,9 +197,15 @@ func MakeCRL(s CRLSpec) []byte {
 	if num == 0 {
 		num = 1
 	}
+	issuer := s.Issuer
+	if s.IssuerUTF8 {
+		twin := *s.Issuer
+		twin.RawSubject = NameAsUTF8(s.Issuer.RawSubject)
+		issuer = &twin
+	}
 	der, err := x509.CreateRevocationList(rand.Reader, &x509.RevocationList{
 		SignatureAlgorithm: x509.ECDSAWithSHA256, RevokedCertificates: rev, Number: big.NewInt(num),
-		ThisUpdate: tu, NextUpdate: nu}, s.Issuer, s.Signer)
+		ThisUpdate: tu, NextUpdate: nu}, issuer, s.Signer)
 	if err != nil {
 		panic(fmt.Sprintf("harness: CreateRevocationList: %v", err))
 	}
@@ -217,15 +226,29 @@ type Getter struct {
 	Log       []string
 	// Default answers URLs not listed (nil: a 404 error).
 	Default func(url string) Response
+	// Sequences, when set for a URL, are its successive answers (the last one repeats); they take precedence.
+	Sequences map[string][]Response
+	served    map[string]int
 }
 
-func NewGetter() *Getter { return &Getter{Responses: map[string]Response{}} }
+func NewGetter() *Getter {
+	return &Getter{Responses: map[string]Response{}, Sequences: map[string][]Response{}, served: map[string]int{}}
+}
 
 // Get implements trust.HTTPSGetter.
 func (g *Getter) Get(u string) (map[string][]string, []byte, error) {
 	g.mu.Lock()
 	g.Log = append(g.Log, u)
 	r, ok := g.Responses[u]
+	if seq := g.Sequences[u]; len(seq) > 0 {
+		// successive answers to the same URL (the last one repeats)
+		n := g.served[u]
+		if n >= len(seq) {
+			n = len(seq) - 1
+		}
+		r, ok = seq[n], true
+		g.served[u]++
+	}
 	g.mu.Unlock()
 	if !ok {
 		if g.Default != nil {
@@ -247,5 +270,56 @@ func (g *Getter) Clone() *Getter {
 		n.Responses[k] = v
 	}
 	n.Default = g.Default
+	for k, v := range g.Sequences {
+		n.Sequences[k] = v
+	}
 	return n
+}
+
+// NameAsUTF8 re-encodes a DER distinguished name with every attribute value as a UTF8String.
+func NameAsUTF8(raw []byte) []byte {
+	var rdns pkix.RDNSequence
+	if _, err := asn1.Unmarshal(raw, &rdns); err != nil {
+		panic("harness: NameAsUTF8: " + err.Error())
+	}
+	var sets [][]byte
+	for _, set := range rdns {
+		var attrs [][]byte
+		for _, a := range set {
+			oid := make([]int, len(a.Type))
+			copy(oid, a.Type)
+			attrs = append(attrs, DERSeq(DEROID(oid), DER(0x0c, []byte(fmt.Sprint(a.Value)))))
+		}
+		sets = append(sets, DER(0x31, attrs...))
+	}
+	return DERSeq(sets...)
+}
+
+// WithoutCRLNumber re-issues a CRL without its cRLNumber extension (a well-formed list that
+// x509.CreateRevocationList itself cannot produce), signed by signer.
+func WithoutCRLNumber(der []byte, signer *Key) []byte {
+	var cl pkix.CertificateList
+	if _, err := asn1.Unmarshal(der, &cl); err != nil {
+		panic("harness: WithoutCRLNumber: " + err.Error())
+	}
+	tbs := cl.TBSCertList
+	tbs.Raw = nil
+	var exts []pkix.Extension
+	for _, e := range tbs.Extensions {
+		if !e.Id.Equal(asn1.ObjectIdentifier{2, 5, 29, 20}) {
+			exts = append(exts, e)
+		}
+	}
+	tbs.Extensions = exts
+	raw, err := asn1.Marshal(tbs)
+	if err != nil {
+		panic("harness: WithoutCRLNumber: " + err.Error())
+	}
+	rs := signer.SignRaw(raw)
+	sig, _ := asn1.Marshal(struct{ R, S *big.Int }{new(big.Int).SetBytes(rs[:32]), new(big.Int).SetBytes(rs[32:])})
+	out, err := asn1.Marshal(pkix.CertificateList{TBSCertList: tbs, SignatureAlgorithm: cl.SignatureAlgorithm, SignatureValue: asn1.BitString{Bytes: sig, BitLength: len(sig) * 8}})
+	if err != nil {
+		panic("harness: WithoutCRLNumber: " + err.Error())
+	}
+	return out
 }
